@@ -2,6 +2,7 @@ package gate
 
 import (
 	"fmt"
+	"os"
 	"sync"
 
 	"go4.org/jsonconfig"
@@ -19,6 +20,9 @@ type KV struct {
 	Quiet bool
 	// KeyFn abstracts a key for the log (nil: the key itself).
 	KeyFn func(string) any
+	// Marker, if set, receives one line per mutating call BEFORE it is applied, written with a single
+	// write(2): under strace this places the index update in the total order of the process's system calls.
+	Marker *os.File
 }
 
 var _ sorted.KeyValue = (*KV)(nil)
@@ -73,7 +77,14 @@ func (g *KV) Get(key string) (string, error) {
 	return v, err
 }
 
+func (g *KV) mark(what, key string) {
+	if g.Marker != nil {
+		g.Marker.Write([]byte("VERIFMARK " + what + " " + key + "\n"))
+	}
+}
+
 func (g *KV) Set(key, value string) error {
+	g.mark("Set", key)
 	n, kind, frozen := g.P.enter(g.Name, "Set", true)
 	defer g.P.done(g.Name, "Set")
 	if frozen {
@@ -93,6 +104,7 @@ func (g *KV) Set(key, value string) error {
 }
 
 func (g *KV) Delete(key string) error {
+	g.mark("Delete", key)
 	n, kind, frozen := g.P.enter(g.Name, "Delete", true)
 	defer g.P.done(g.Name, "Delete")
 	if frozen {
@@ -143,6 +155,7 @@ func (g *KV) CommitBatch(b sorted.BatchMutation) error {
 	if !ok {
 		return fmt.Errorf("gatekv: foreign batch %T", b)
 	}
+	g.mark("CommitBatch", fmt.Sprint(len(gb.sets), " sets ", len(gb.dels), " dels"))
 	n, kind, frozen := g.P.enter(g.Name, "CommitBatch", true)
 	defer g.P.done(g.Name, "CommitBatch")
 	if frozen {
